@@ -23,9 +23,11 @@ ASSUMPTIONS = ['cooperative scheduling only; virtual integer time']
 CONNECT = ('ok-polling', 'ok-websocket', 'ok-upgrade', 'upgrade-refused', 'upgrade-bad-pong', 'upgrade-no-pong', 'refuse', 'status400-json',
            'status500', 'garbage', 'bad-packet', 'non-open', 'empty', 'ws-refuse', 'ws-non-open', 'open+close', 'hang', 'ws-no-open')
 ENDS = ('client-disconnect', 'server-close-packet', 'silence', 'transport-drop', 'failed-post', 'poll-500', 'poll-garbage',
-        'disconnect-in-message-handler', 'ws-close-frame', 'ws-eof', 'disconnect-in-connect-handler', 'disconnect-abort')
+        'disconnect-in-message-handler', 'ws-close-frame', 'ws-eof', 'disconnect-in-connect-handler', 'disconnect-abort',
+        'disconnect-post-in-flight')
 REASON = {'client-disconnect': 'client disconnect', 'disconnect-in-message-handler': 'client disconnect', 'disconnect-abort': 'client disconnect',
-          'disconnect-in-connect-handler': 'client disconnect', 'server-close-packet': 'server disconnect'}
+          'disconnect-in-connect-handler': 'client disconnect', 'server-close-packet': 'server disconnect',
+          'disconnect-post-in-flight': 'client disconnect'}
 HORIZON = 3 + 2 + 5 + 6 + 3
 
 
@@ -121,6 +123,17 @@ def _lifecycle(cfl, ci, ei, second):
                 d = cl.call('disconnect')
             elif end == 'disconnect-abort':
                 d = cl.call('disconnect', abort=True)
+            elif end == 'disconnect-post-in-flight':
+                if ws:
+                    return ''
+                # slow network: the POST of a send() is still unanswered when the application disconnects
+                fs.post_mode = 'hold'
+                cl.call('send', 'in-flight')
+                k.settle()
+                d = cl.call('disconnect')
+                k.settle()
+                fs.hold = False
+                fs.post_mode = 'ok'
             elif end == 'server-close-packet':
                 fs.push('1')
             elif end == 'silence':
@@ -222,6 +235,16 @@ def _lifecycle(cfl, ci, ei, second):
                 return fail(PROP, 'RECONNECT', 'second connect(): done=%s exc=%r state %s' % (h2.task.done_, h2.exc, cl.state()), **st)
             if [e[0] for e in cl.events[nev:]] != ['connect']:
                 return fail(PROP, 'RECONNECT', 'second connect(): events %r' % (cl.events[nev:],), **st)
+            # the new connection starts clean: the only thing the client transmits is what the application sends now
+            nrx = len(fs.received)
+            cl.call('send', 'again')
+            k.settle()
+            k.run(until=k.now + 1)
+            rx2 = [(t, d_) for tr, t, d_ in fs.received[nrx:] if t != 3]
+            if rx2 != [(4, 'again')]:
+                return fail(PROP, 'RECONNECT', 'second connection: the application sent one message, the server received packets %r' % (rx2,), **st)
+            if cl.state() != 'connected' or [e for e in cl.events[nev:] if e[0] == 'disconnect']:
+                return fail(PROP, 'RECONNECT', 'second connection ended by itself: state %s events %r' % (cl.state(), cl.events[nev:]), **st)
             cl.call('disconnect')
             k.run(until=k.now + HORIZON)
         return ''
